@@ -9,6 +9,7 @@ R04.4 documented resolution policy: shift preferred (constant true) and priority
       production preferred).
 R04.5 = all C12 rules re-evaluated: lalry turns "reduce a start production on end of input" into Accept, so sound
       acceptance needs the start symbol to be isolated by augment_grammar (necessary condition of the soundness clause).
+R04.6 = all C18 rules re-evaluated (terminal identity in the grammar handed to lalry).
 Soundness of the resolved table (inside lalry, grammars x inputs) is NOT decided.
 """
 from .. import cfg
@@ -149,3 +150,7 @@ def check(ctx):
     # R04.5: isolation of the start symbol (C12's rules; keys keep their R12.x names)
     from . import c12
     c12.check(ctx)
+    # R04.6 = C18's rules (added after seed C04-b): the grammar handed to lalry identifies terminals by parol's terminal numbers;
+    # a conversion that merges distinct terminals (same text, other look-ahead) builds the table of another grammar
+    from . import c18
+    c18.check(ctx)
